@@ -53,3 +53,87 @@ async fn verif_enum_decode_and_verify_responses() {
     }
     println!("ENUM-OK cases={cases}");
 }
+
+// ---------------------------------------------------------------------------------------------
+// Witness finder / bounded stand-in for C32: random peers (connected / archival / trusted flags), several height
+// requests, every attempt fails with a retryable outbound failure or a not-found response; all sends are recorded.
+// (Recording sender adapted from the demonstration of seed C32-a.)
+// ---------------------------------------------------------------------------------------------
+#[derive(Default)]
+struct RecordingSender { next_id: u64, sent: Vec<(u64, PeerId, u64)> }
+impl RequestSender for RecordingSender {
+    type RequestId = u64;
+    fn send_request(&mut self, peer: &PeerId, request: HeaderRequest) -> u64 {
+        let id = self.next_id; self.next_id += 1;
+        let origin = match request.data { Some(Data::Origin(o)) => o, _ => 0 };
+        self.sent.push((id, *peer, origin));
+        id
+    }
+}
+struct XorShiftC(u64);
+impl XorShiftC {
+    fn next(&mut self) -> u64 { self.0 ^= self.0 << 13; self.0 ^= self.0 >> 7; self.0 ^= self.0 << 17; self.0 }
+    fn below(&mut self, n: u64) -> u64 { self.next() % n }
+}
+
+#[async_test]
+async fn verif_model_header_ex_retries() {
+    let seed: u64 = std::env::var("VERIF_SEED").ok().and_then(|s| s.parse().ok()).unwrap_or(0);
+    let rounds: u64 = std::env::var("VERIF_ROUNDS").ok().and_then(|s| s.parse().ok()).unwrap_or(150);
+    let mut attempts_total = 0u64;
+    for round in 0..rounds {
+        let mut rng = XorShiftC(0x9E3779B97F4A7C15 ^ seed.wrapping_mul(7001).wrapping_add(round + 1));
+        let event_channel = EventChannel::new();
+        let mut tracker = PeerTracker::new(event_channel.publisher());
+        let mut peers = Vec::new();
+        for k in 0..(2 + rng.below(5)) {
+            let p = PeerId::random();
+            let connected = rng.below(4) != 0;
+            let archival = rng.below(2) == 0;
+            if connected { tracker.add_connection(&p, ConnectionId::new_unchecked(k as usize + 1)); }
+            if archival { tracker.mark_as_archival(&p); }
+            peers.push((p, connected, archival));
+        }
+        let mut sender = RecordingSender::default();
+        let mut handler = HeaderExClientHandler::<RecordingSender>::new();
+        let nreq = 1 + rng.below(4);
+        let mut rxs = Vec::new();
+        for r in 0..nreq { let (tx, rx) = oneshot::channel(); handler.on_send_request(HeaderRequest::with_origin(100 + r, 1), tx); rxs.push(rx); }
+        let mut answered = vec![0u32; nreq as usize];
+        let mut handled = 0usize;
+        for _step in 0..12 {
+            handler.schedule_pending_requests(&mut sender, &tracker);
+            // every new attempt: to a peer that is connected right now
+            for (id, peer, origin) in sender.sent[handled..].iter() {
+                attempts_total += 1;
+                if !tracker.is_connected(peer) { println!("WITNESS C32: attempt {id} for the request of height {origin} was sent to a peer without a connection (seed {seed}, round {round})"); panic!("witness"); }
+            }
+            // fail every new attempt in a retryable way
+            let new: Vec<(u64, PeerId, u64)> = sender.sent[handled..].to_vec();
+            handled = sender.sent.len();
+            for (id, peer, _origin) in new {
+                if rng.below(2) == 0 { handler.on_failure(peer, id, OutboundFailure::ConnectionClosed); }
+                else {
+                    handler.on_response_received(peer, id, vec![HeaderResponse { body: vec![], status_code: StatusCode::NotFound.into() }]);
+                    // let the decoding task run and the handler pick up its result
+                    for _ in 0..20 { let _ = futures::poll!(std::future::poll_fn(|cx| handler.poll(cx))); tokio::task::yield_now().await; }
+                }
+            }
+            for (i, rx) in rxs.iter_mut().enumerate() { if let Ok(_) = rx.try_recv() { answered[i] += 1; } }
+            // sometimes a peer (dis)connects
+            if rng.below(3) == 0 { let k = rng.below(peers.len() as u64) as usize; if !peers[k].1 { tracker.add_connection(&peers[k].0, ConnectionId::new_unchecked(50 + k)); peers[k].1 = true; } }
+        }
+        for r in 0..nreq {
+            let mine: Vec<&(u64, PeerId, u64)> = sender.sent.iter().filter(|s| s.2 == 100 + r).collect();
+            if mine.len() > MAX_TRIES { println!("WITNESS C32: the request of height {} was sent {} times (seed {seed}, round {round})", 100 + r, mine.len()); panic!("witness"); }
+            if mine.len() == MAX_TRIES {
+                let last = mine[MAX_TRIES - 1].1;
+                let arch = peers.iter().find(|p| p.0 == last).map(|p| p.2).unwrap_or(false);
+                if !arch { println!("WITNESS C32: the last attempt for the request of height {} went to a non-archival peer (seed {seed}, round {round})", 100 + r); panic!("witness"); }
+            }
+            if answered[r as usize] > 1 { println!("WITNESS C32: the caller of the request of height {} received {} answers", 100 + r, answered[r as usize]); panic!("witness"); }
+            if mine.len() == MAX_TRIES && answered[r as usize] != 1 { println!("WITNESS C32: the request of height {} used all its tries but its caller has {} answers (seed {seed}, round {round})", 100 + r, answered[r as usize]); panic!("witness"); }
+        }
+    }
+    println!("ENUM-OK cases={attempts_total}");
+}
